@@ -729,7 +729,7 @@ func runPackStream(o *Opts) {
 	sink := NewSink(o.Out, "pack", "Corr.RunPack",
 		"cases: trees under /w/src (files with perms 0400-0777 and mtimes with .0/.4/.5/.6/.999999999 s fractions, empty files and directories, long names, names with spaces / leading dot / dash, links: in-tree relative, absolute, out-of-tree, prefix sibling, chains, to directories, dangling; fifos, link cycles and self-containing external directories in the risky subset; optional .terraformignore from the rule grammar, .git/.terraform) x {dereference} x {ignore} x {legacy Pack} x allow lists x 10 spellings of the source path x working directories x parse histories / default-flag states x writer faults; each Pack runs in a chrooted child; the slug is read back with archive/tar and fed to the real Unpack; non-trivial = at least 3 entries; distinct by hash of the case",
 		60)
-	n := 300 * o.Scale
+	n := 500 * o.Scale
 	if o.Tier == "thorough" {
 		n = 8000 * o.Scale
 	}
